@@ -24,7 +24,7 @@ func ConvertToValue(structure json.Structure) value.Primary {
 		p = value.NewString(structure.(json.String).Raw())
 	case json.Boolean:
 		p = value.NewBoolean(structure.(json.Boolean).Raw())
-	case json.Null:
+	case json.Null, nil:
 		p = value.NewNull()
 	default:
 		p = value.NewString(structure.Encode())
